@@ -451,6 +451,19 @@ def Terminal.step (t : Terminal) (inp : Bool × AbsBurst) : Except Err (Terminal
   | .ok (s', oracle', out) =>
     .ok ({ (t.setSlot inp.1 s') with oracle := oracle', obs := deliver t.obs out.acts }, out)
 
+/-- `timeslot.transmission.end_transmissions()` called from outside `process_burst`
+(`TransmissionWatcher.end_all_transmissions`): the time slot's ended callback sets `reset_rx_sequence`,
+and nothing clears it until the next burst -/
+def Slot.flush (s : Slot) (oracle : Nat) : Slot × Nat × List Act :=
+  let m := endTransmissions { tx := s.tx, oracle := oracle }
+  ({ s with tx := m.tx, reset := s.reset || (events m.acts).any Event.isEnded }, m.oracle, m.acts)
+
+/-- `end_all_transmissions` for one terminal: slot 1, then slot 2 (dict order) -/
+def Terminal.flush (t : Terminal) : Terminal × List Act :=
+  let (s1, o1, a1) := t.s1.flush t.oracle
+  let (s2, o2, a2) := t.s2.flush o1
+  ({ s1 := s1, s2 := s2, oracle := o2, obs := deliver t.obs (a1 ++ a2) }, a1 ++ a2)
+
 /-- one record of the trace of a run: which slot, what came out -/
 structure Rec where
   two : Bool
